@@ -54,6 +54,8 @@ Definition check_case (c : case_t) : bool :=
       && list_eqb vnode_eqb (g_nodes g) o_nodes
       && edges_same (g_edges g) o_edges
   | CPlc ptable N evs o_degs =>
+      (* rng.integers(1, maxdeg) stayed in 1..99: the hypothesis of C15_plc_degree_bound *)
+      forallb (fun e => match e with PK k _ => Nat.leb 1 k && Nat.leb k 99 | PIdx _ => true end) evs &&
       match plc_degrees (ptab ptable) N evs with
       | Some (ns, []) => list_eqb Nat.eqb ns o_degs        (* every recorded draw consumed *)
       | _ => false
